@@ -28,11 +28,15 @@ CORPUS = K15
 
 
 def instances(tier):
-    return [("scopes.%s" % sk.name, dict(k=k)) for k, sk in enumerate(CORPUS)]
+    from harness.bcommon import len2_variants
+
+    return [("scopes.%s%s" % (sk.name, suf), dict(k=k, len2=slot)) for k, sk in enumerate(CORPUS) for suf, slot in len2_variants(sk, tier)]
 
 
 def make_run(p):
-    sk = CORPUS[p["k"]]
+    from harness.bcommon import with_len2
+
+    sk = with_len2(CORPUS[p["k"]], p.get("len2"))
 
     def run():
         E = core.ENGINE
